@@ -11,6 +11,7 @@ import (
 
 	v1 "sigs.k8s.io/karpenter/pkg/apis/v1"
 	"sigs.k8s.io/karpenter/pkg/operator/options"
+	provscheduling "sigs.k8s.io/karpenter/pkg/controllers/provisioning/scheduling"
 	"sigs.k8s.io/karpenter/pkg/scheduling"
 
 	"verif/internal/enum"
@@ -312,7 +313,7 @@ func keysOf(m map[string]bool) []string {
 func init() {
 	register("C13", "exploration", func(r *ev.Rec) {
 		r.Rule = "(a) every requirement in the closure (atoms, pairs, triples under Intersection) of the operator/value/bound alphabet is serialized with Requirements.NodeSelectorRequirements and re-evaluated by the label-set oracle on the witness universe; " +
-			"(b) scheduler worlds (as C01) plus every NodePool whose single requirement on a custom / provider key is accepted by the real RuntimeValidate, x pods constraining that key: the NodeClaim observed at the API create is compared key by key with the scheduler's in-memory requirements, its instance-type list with the options and minValues floors, its requests with pods + least daemon overhead, its labels/taints/hash with the template; panics are caught and reported. " +
+			"(b) scheduler worlds (as C01) plus every NodePool whose single requirement on a custom / provider key is accepted by the real RuntimeValidate, x pods constraining that key: the NodeClaim observed at the API create is compared key by key with the scheduler's in-memory requirements, its instance-type list with the options and minValues floors, its requests with pods + least daemon overhead, its labels/taints/hash with the template; panics are caught and reported; (b3) NodePools with a minValues floor on instance-type / zone / arch / provider keys x a launch-list limit (MaxInstanceTypes) of 1 or 2 x pods x both policies: the TRUNCATED list must still meet every floor under Strict. " +
 			"non-trivial = distinct requirement with a partially admitting serialization, or distinct (case, created NodeClaim)"
 		r.Assumptions = []string{"minValues floors are recomputed from the harness's catalog description", "NodePool.Hash() is used to compare the annotation (its own correctness is C15)"}
 		c13Serialization(r)
@@ -392,6 +393,68 @@ func init() {
 					l.Sample(map[string]any{"case": desc, "created": out.Digest})
 				}
 			}()
+		})
+		// (b3) truncation x minValues: the launch list is cut to MaxInstanceTypes cheapest types AFTER which every minValues
+		// floor (on any key) must still hold under Strict
+		type mvPool struct {
+			cat string
+			req v1.NodeSelectorRequirementWithMinValues
+		}
+		mv := func(key string, op corev1.NodeSelectorOperator, vals ...string) v1.NodeSelectorRequirementWithMinValues {
+			return v1.NodeSelectorRequirementWithMinValues{Key: key, Operator: op, Values: vals, MinValues: two()}
+		}
+		mvPools := []mvPool{
+			{"K4", mv(world.FamKey, corev1.NodeSelectorOpExists)},
+			{"K4", mv(world.GenKey, corev1.NodeSelectorOpExists)},
+			{"K4", mv(corev1.LabelInstanceTypeStable, corev1.NodeSelectorOpExists)},
+			{"K4", mv(corev1.LabelTopologyZone, corev1.NodeSelectorOpIn, "a", "b")},
+			{"K2", mv(corev1.LabelArchStable, corev1.NodeSelectorOpIn, "amd64", "arm64")},
+			{"K2", mv(corev1.LabelInstanceTypeStable, corev1.NodeSelectorOpExists)},
+		}
+		mvShapes := []string{"small", "medium", "large", "zone-b-selector-large", "on-demand-selector"}
+		limits := []int{1, 2}
+		enum.Run(r, enum.Size(len(mvPools), len(mvShapes), len(limits), len(pols)), func(idx int64, l *ev.Local) {
+			d := enum.Odo(idx, len(mvPools), len(mvShapes), len(limits), len(pols))
+			mp := mvPools[d[0]]
+			np := world.NodePool("default", reqsMod(mp.req))
+			w0 := world.New(world.Options{})
+			if err := np.RuntimeValidate(w0.Ctx); err != nil {
+				l.Outcome("nodepool-rejected-by-validation")
+				return
+			}
+			l.Eval()
+			old := provscheduling.MaxInstanceTypes
+			provscheduling.MaxInstanceTypes = limits[d[2]]
+			defer func() { provscheduling.MaxInstanceTypes = old }()
+			sh := podShapes[shapeIdx(mvShapes[d[1]])]
+			desc := fmt.Sprintf("catalog %s, NodePool requirement {%s} minValues=2, launch-list limit %d, pod %s, policy %s", mp.cat, oracle.ReqString(mp.req), limits[d[2]], sh.name, pols[d[3]])
+			c := SchedCase{Catalog: mp.cat, MinV: pols[d[3]], Pref: options.PreferencePolicyRespect, Workers: 1}
+			w := world.New(world.Options{MinValuesPolicy: c.MinV})
+			env := &SchedEnv{W: w, Case: c, Catalog: catalogs[mp.cat], Volumes: map[string][]oracle.Volume{}, Pools: []*v1.NodePool{np}}
+			w.CP.Catalog[""] = world.BuildCatalog(env.Catalog)
+			w.Add(world.NodeClass(), np)
+			p := world.Pod("p0", sh.cpu, sh.mods...)
+			env.Pending = []*corev1.Pod{p}
+			w.Add(p)
+			w.SyncCluster()
+			out := env.runPass(explore.Replay(nil), 1)
+			if out.Err != nil {
+				l.Outcome("schedule-error")
+				return
+			}
+			viol, n := env.judgeLaunchRequest(out)
+			if n > 0 {
+				l.NontrivialH(ev.H("b3/" + desc))
+				l.Outcome("truncation x minValues: nodeclaim-created")
+			} else {
+				l.Outcome("truncation x minValues: no-nodeclaim")
+			}
+			for _, v := range viol {
+				l.Violation(v.Sig, v.Msg+"  ["+desc+"]", map[string]any{"case": desc})
+			}
+			if idx == 13 {
+				l.Sample(map[string]any{"case": desc, "created": out.Digest})
+			}
 		})
 	})
 }
